@@ -104,6 +104,38 @@ def long_lived_use(fi, var):
     return uses
 
 
+def verifier_called_on_same_pair(rs, ve):
+    """refstring hands the verifier exactly the module and the path it built the reference from, whatever the verifier's signature
+    (`(module, *path)`, `(path, module)`, keywords): each argument is one of the two names, both occur, and inside the verifier the lookup is
+    `codefind.find_code(*<its path parameter>, module=<its module parameter>)` (checked by the same-lookup obligation on parameter names)."""
+    calls = [n for n in walk_local(rs.node) if isinstance(n, ast.Call) and norm(n.func) == "_verify_existence"]
+    if len(calls) != 1:
+        return False
+    c = calls[0]
+    given = [norm(a.value) if isinstance(a, ast.Starred) else norm(a) for a in c.args] + [norm(k.value) for k in c.keywords]
+    if sorted(given) != ["module", "path"]:
+        return False
+    params = [a.arg for a in ve.node.args.args] + ([ve.node.args.vararg.arg] if ve.node.args.vararg else [])
+    bound = {}
+    pos = [a for a in c.args]
+    for p_, a in zip([a.arg for a in ve.node.args.args], pos):
+        if isinstance(a, ast.Starred):
+            break
+        bound[p_] = norm(a)
+    if ve.node.args.vararg and any(isinstance(a, ast.Starred) for a in pos):
+        bound[ve.node.args.vararg.arg] = norm(next(a for a in pos if isinstance(a, ast.Starred)).value)
+    for k in c.keywords:
+        bound[k.arg] = norm(k.value)
+    # the parameter that receives `path` is the one star-unpacked into find_code, the one that receives `module` is its module keyword
+    finds = [n for n in walk_local(ve.node) if isinstance(n, ast.Call) and norm(n.func) == "codefind.find_code"]
+    if len(finds) != 1:
+        return False
+    f = finds[0]
+    star = [norm(a.value) for a in f.args if isinstance(a, ast.Starred)]
+    modkw = [norm(k.value) for k in f.keywords if k.arg == "module"]
+    return len(star) == 1 and len(modkw) == 1 and bound.get(star[0]) == "path" and bound.get(modkw[0]) == "module"
+
+
 def run(repo, chk):
     chk.explanation = (
         "Decides the structural clauses of C14: every store to a function's __code__ reachable from probing / tooling is dominated, in "
@@ -194,7 +226,10 @@ def run(repo, chk):
            "an empty module means __main__; the path is looked up with find_code(*path, module=...)")
     rs = repo.func("utils.refstring")
     ve = repo.func("utils._verify_existence") if repo.has_func("utils._verify_existence") else rs      # the existence check may be written inside refstring itself
-    chk.ob("R14.3", "utils._verify_existence:same-lookup", facts_of(ve).mentions("codefind.find_code(*path, module=module)"), ve.where,
+    finds_ = [n for n in walk_local(ve.node) if isinstance(n, ast.Call) and norm(n.func) == "codefind.find_code"]
+    same_lookup = len(finds_) == 1 and len([a for a in finds_[0].args if isinstance(a, ast.Starred)]) == 1 and len(finds_[0].args) == 1 \
+        and [k.arg for k in finds_[0].keywords] == ["module"]
+    chk.ob("R14.3", "utils._verify_existence:same-lookup", same_lookup, ve.where,
            "refstring() validates the reference with the same lookup the resolver uses")
     ei = repo.func("utils._extract_info")
     fei = facts_of(ei)
@@ -202,7 +237,7 @@ def run(repo, chk):
            and any(t.startswith(("return (getattr(fn, '__module__', None), *", "return (module, *")) for t, _, n in fei.items if isinstance(n, ast.Return)), ei.where,
            "the path is __qualname__ split on '.', without the <locals> markers")
     chk.ob("R14.3", "utils.refstring:uses-builder-and-verifier", facts_of(rs).mentions("_build_refstring(module, *path)") and
-           (facts_of(rs).mentions("_verify_existence(module, *path)") or ve is rs) and facts_of(rs).has("module, *path = _extract_info(fn)"),
+           (ve is rs or verifier_called_on_same_pair(rs, ve)) and facts_of(rs).has("module, *path = _extract_info(fn)"),
            rs.where, "refstring() = builder + existence check on the same (module, path)")
     tr = repo.func("transform.transform")
     # the instrumented source is compiled as a top-level def: under which path does the code registry learn about it?
